@@ -16,6 +16,7 @@ import (
 	"os"
 	"os/exec"
 	"path/filepath"
+	"regexp"
 	"sort"
 	"strconv"
 	"strings"
@@ -43,6 +44,89 @@ type part struct {
 	Thorough tierCfg
 	Fuzz     []string // native fuzz targets (same package), thorough tier only
 	Env      []string
+}
+
+type shardRes struct {
+	shard    *ev.Shard
+	exit     int
+	timedOut bool
+	out      string
+	label    string
+	timeout  time.Duration
+	part     int
+}
+
+var (
+	fuzzExecs = regexp.MustCompile(`execs: (\d+)`)
+	fuzzTotal = regexp.MustCompile(`new interesting: \d+ \(total: (\d+)\)`)
+	fuzzViol  = regexp.MustCompile(`VERIF-FUZZ-VIOLATION signature=(\S+) replay=(\S+)`)
+)
+
+// runFuzz runs one native fuzz target for a bounded time and turns its outcome into shard evidence.
+// The target carries the semantic oracle and writes an ordinary replay file before failing.
+func runFuzz(R, scratch, id string, pt part, pi, fi int, target string, d time.Duration) shardRes {
+	cache := filepath.Join(scratch, fmt.Sprintf("fuzzcache-p%d-%d", pi, fi))
+	pkgDir := filepath.Join(R, strings.TrimPrefix(pt.Pkg, "./"))
+	crashDir := filepath.Join(pkgDir, "testdata", "fuzz", target)
+	_ = os.RemoveAll(crashDir)
+	defer os.RemoveAll(crashDir) // the replay file written by the target is the reproducible unit, not go's crasher copy
+	timeout := d + 10*time.Minute
+	ctx, cancel := context.WithTimeout(context.Background(), timeout)
+	defer cancel()
+	args := []string{"test"}
+	if pt.Tags != "" {
+		args = append(args, "-tags", pt.Tags)
+	}
+	// the package comes first: go test stops looking for its own flags at the first -test.* one
+	args = append(args, pt.Pkg, "-run", "^$", "-fuzz", "^"+target+"$", "-fuzztime", d.String(), "-fuzzminimizetime", "5s", "-test.fuzzcachedir="+cache)
+	cmd := exec.CommandContext(ctx, "go", args...)
+	cmd.Dir = R
+	cmd.Env = goEnv("VERIF_ROOT="+R, "VERIF_PROPERTY="+id, "VERIF_PART="+pt.Name, "VERIF_TIER=thorough")
+	var buf bytes.Buffer
+	cmd.Stdout, cmd.Stderr = &buf, &buf
+	cmd.WaitDelay = 5 * time.Second
+	err := cmd.Run()
+	out := buf.String()
+	res := shardRes{out: out, label: "fuzz:" + target, timeout: timeout, part: pi}
+	s := &ev.Shard{Property: id, Labels: map[string]int{}, Excluded: map[string]int{}, KnownSeen: map[string]int{}, KnownText: map[string]string{},
+		Floors: map[string]float64{}, Extra: map[string]any{}}
+	if m := fuzzExecs.FindAllStringSubmatch(out, -1); len(m) > 0 {
+		n, _ := strconv.Atoi(m[len(m)-1][1])
+		s.Evaluations = n
+		s.Labels["fuzz:"+target+":execs"] = n
+	}
+	if m := fuzzTotal.FindAllStringSubmatch(out, -1); len(m) > 0 {
+		n, _ := strconv.Atoi(m[len(m)-1][1])
+		s.Labels["fuzz:"+target+":corpus-entries"] = n
+	}
+	s.Extra["fuzz_"+target] = fmt.Sprintf("go test -fuzz=%s -fuzztime=%s: %s", target, d, lastLine(out))
+	if ctx.Err() == context.DeadlineExceeded {
+		res.timedOut = true
+	}
+	if err != nil {
+		res.exit = 1
+		if m := fuzzViol.FindStringSubmatch(out); m != nil {
+			msg := out
+			if i := strings.Index(out, "VERIF-FUZZ-VIOLATION"); i >= 0 {
+				msg = tail(out[i:], 3000)
+			}
+			s.Violations = append(s.Violations, ev.Violation{Signature: m[1], Message: msg, Replay: m[2]})
+		} else if !res.timedOut {
+			s.Inconclusive = append(s.Inconclusive, "fuzz target "+target+" failed without a violation record: "+tail(out, 600))
+		}
+	}
+	res.shard = s
+	return res
+}
+
+func lastLine(s string) string {
+	ls := strings.Split(strings.TrimSpace(s), "\n")
+	for i := len(ls) - 1; i >= 0; i-- {
+		if strings.Contains(ls[i], "execs:") {
+			return strings.TrimSpace(ls[i])
+		}
+	}
+	return strings.TrimSpace(ls[len(ls)-1])
 }
 
 type propCfg struct {
@@ -91,6 +175,7 @@ func run() int {
 	tier := fs.String("tier", envOr("VERIF_TIER", "quick"), "quick|thorough")
 	replay := fs.String("replay", "", "replay one file")
 	casesOverride := fs.Int("cases", 0, "override case count")
+	fuzzOverride := fs.Duration("fuzztime", 0, "override the native fuzzing time per target (thorough tier)")
 	shardsOverride := fs.Int("shards", 0, "override shard count")
 	verbose := fs.Bool("v", false, "show test output")
 	if err := fs.Parse(os.Args[2:]); err != nil {
@@ -124,15 +209,6 @@ func run() int {
 	}
 	defer os.RemoveAll(scratch)
 
-	type shardRes struct {
-		shard    *ev.Shard
-		exit     int
-		timedOut bool
-		out      string
-		label    string
-		timeout  time.Duration
-		part     int
-	}
 	var results []shardRes
 
 	// Which part does a replay file belong to?
@@ -156,6 +232,9 @@ func run() int {
 		tc := pt.Quick
 		if *tier == "thorough" {
 			tc = pt.Thorough
+		}
+		if *fuzzOverride > 0 {
+			tc.FuzzTime = *fuzzOverride
 		}
 		if *casesOverride > 0 {
 			tc.Cases = *casesOverride
@@ -245,6 +324,13 @@ func run() int {
 		}
 		wg.Wait()
 		results = append(results, partResults...)
+
+		// Native coverage-guided fuzzing of the same oracle (thorough tier only, wall-clock bounded).
+		if *tier == "thorough" && tc.FuzzTime > 0 {
+			for fi, target := range pt.Fuzz {
+				results = append(results, runFuzz(R, scratch, id, pt, pi, fi, target, tc.FuzzTime))
+			}
+		}
 	}
 	if len(results) == 0 {
 		fmt.Printf("INCONCLUSIVE: property=%s nothing was run\n", id)
@@ -331,8 +417,8 @@ func run() int {
 		}
 		per := map[int]*agg{}
 		for _, r := range results {
-			if r.shard == nil {
-				continue
+			if r.shard == nil || strings.HasPrefix(r.label, "fuzz:") {
+				continue // the fuzzer's executions are counted, but the generator floors are about the rapid generators
 			}
 			a := per[r.part]
 			if a == nil {
